@@ -25,14 +25,22 @@ template <typename InitialStateIds>
 class history_impl<front::no_history, InitialStateIds>
 {
   public:
+    // Resets the event pool of a state machine that gets entered.
+    // Has to be called before the first entry behavior runs
+    // (the events it submits must not get lost).
     template <typename StateMachine, typename Event>
-    void on_entry(StateMachine& sm, const Event&)
+    void reset_event_pool(StateMachine& sm, const Event&)
     {
-        sm.m_active_state_ids = value_array<InitialStateIds>;
         if constexpr (StateMachine::event_pool_member::value)
         {
             sm.get_event_pool().events.clear();
         }
+    }
+
+    template <typename StateMachine, typename Event>
+    void on_entry(StateMachine& sm, const Event&)
+    {
+        sm.m_active_state_ids = value_array<InitialStateIds>;
     }
 
     template <typename StateMachine, typename Event, typename Visitor>
@@ -64,6 +72,11 @@ template <typename InitialStateIds>
 class history_impl<front::always_shallow_history, InitialStateIds>
 {
 public:
+    template <typename StateMachine, typename Event>
+    void reset_event_pool(StateMachine&, const Event&)
+    {
+    }
+
     template <typename StateMachine, typename Event>
     void on_entry(StateMachine& sm, const Event&)
     {
@@ -101,6 +114,16 @@ class history_impl<front::shallow_history<Events...>, InitialStateIds>
 
 public:
     template <typename StateMachine, typename Event>
+    void reset_event_pool(StateMachine& sm, const Event&)
+    {
+        if constexpr (!mp11::mp_contains<events, Event>::value &&
+                      StateMachine::event_pool_member::value)
+        {
+            sm.get_event_pool().events.clear();
+        }
+    }
+
+    template <typename StateMachine, typename Event>
     void on_entry(StateMachine& sm, const Event&)
     {
         if constexpr (mp11::mp_contains<events, Event>::value)
@@ -110,10 +133,6 @@ public:
         else
         {
             sm.m_active_state_ids = value_array<InitialStateIds>;
-            if constexpr (StateMachine::event_pool_member::value)
-            {
-                sm.get_event_pool().events.clear();
-            }
         }
     }
 
